@@ -267,6 +267,8 @@ def cons_work(exes, start, n, owner, fam="cons"):
             if not is_unsolvable:
                 # some other reported error on a valid program: acceptance is C16's
                 part.count(fam + ": rejected with another error (owned by C16)")
+                if owner == "C16":
+                    part.violation(fam + "/valid-program-rejected/" + re.sub(r"\[\d+, \d+\] ", "", msg)[:60], "a valid constraint program is rejected with an error: " + msg, {"program": case["text"], "variant": variant})
                 continue
             truth = None
             if case["planted"] is not None:
